@@ -231,9 +231,15 @@ def check_replay(ck, R):
     ck.ob(R, pe.key(None, "returns-read-value"), okv, "the value read back is returned as valid" if okv else
           "process_existing_memento does not return the value it read", pe.where())
     ign = [r for r in pe.returns() if isinstance(r.value, ast.Call) and A.is_none(A.kwarg(r.value, "result")) and A.norm(A.kwarg(r.value, "valid_result")) == "True"]
-    oki = bool(ign) and all(pe.enclosing(r, ast.If) is not None and A.norm(pe.enclosing(r, ast.If).test) == "ignore_result" for r in ign)
+    oki = bool(ign) and all(pe.enclosing(r, ast.If) is not None and "ignore_result" in A.names_in(pe.enclosing(r, ast.If).test) for r in ign)
     ck.ob(R, pe.key(None, "ignore-means-valid-none"), oki, "(None, valid) is returned only under ignore_result" if oki else
           "a valid-but-empty answer is returned outside ignore_result", pe.where())
+    # sibling agreement with the computing path (memento_run_local suppresses the value only when
+    # the result is not an exception): a recorded exception is replayed under ignore_result too
+    okx = bool(ign) and all("exception" in A.norm(pe.enclosing(r, ast.If).test) and "result_type" in A.norm(pe.enclosing(r, ast.If).test) for r in ign if pe.enclosing(r, ast.If) is not None)
+    ck.ob(R, pe.key(None, "ignore-keeps-exceptions"), okx, "ignore_result does not suppress a recorded exception" if okx else
+          "under ignore_result a memoized call answers (None, valid) without looking at the recorded result type: the first call raises the "
+          "function's exception, every later call returns None", pe.where())
     # totality of to_exception
     tx = FA(ck, "exception.MementoException.to_exception")
     risky = []
@@ -244,7 +250,7 @@ def check_replay(ck, R):
     # calling the reconstructed class itself
     for c in tx.calls():
         if isinstance(c.func, ast.Name) and tx.df.is_local(c.func.id) and c.func.id not in ("match",):
-            risky.append((c, ("TypeError", "Exception"), "constructing the exception class"))
+            risky.append((c, ("Exception",), "constructing the exception class (its __init__ is user code and may raise anything)"))
     ck.need(len(risky) >= 3, "to_exception: expected import_module / getattr / constructor call")
     for (c, exc_names, what) in risky:
         covered = False
